@@ -8,7 +8,7 @@
 From Coq Require Import NArith ZArith Lia List Bool Arith.
 From FatVerif Require Import Model.Base Model.Str Model.Slot Model.Time Model.Name Model.ShortName Model.DirSlots
   Spec.Abs Proofs.NameProofs Proofs.ShortNameProofs.
-From FatVerif Require Model.Lfn Spec.LfnSpec Proofs.LfnProofs.
+From FatVerif Require Model.Lfn Spec.LfnSpec Proofs.LfnProofs Spec.Wf Proofs.TimeProofs.
 Import ListNotations.
 Open Scope N_scope.
 Ltac Zify.zify_post_hook ::= Z.to_euclidean_division_equations.
@@ -961,4 +961,224 @@ Proof.
     rewrite nth_error_app2 by (unfold len_N in *; lia).
     rewrite nth_error_app1 by (rewrite map_length, app_length; cbn [length]; unfold len_N in *; lia).
     apply map_nth_error. exact Hx.
+Qed.
+
+(* ================================================================ 5. failed calls *)
+
+(* the class of the recorded findings D5/D20: the directory cannot take the run at the place find_free_entries chose
+   (fixed root: it does not fit before the end of the region; chain: not enough free clusters) *)
+Definition write_known_class (k : dkind) (free : nat) (ss : slots) (n : str) (e : sfn_entry) : Prop :=
+  exists p, find_free_entries ss (len_N (entry_run n e)) = Ok p /\
+            ~ can_hold k free (length ss - N.to_nat p) (length (entry_run n e)).
+
+Lemma can_hold_dec k free a b : {can_hold k free a b} + {~ can_hold k free a b}.
+Proof. destruct k; cbn [can_hold]; apply le_dec. Qed.
+
+Lemma validate_ok_or_err n : validate_long_name n = Ok tt \/ exists x, validate_long_name n = Err x.
+Proof.
+  unfold validate_long_name. destruct (utf8_len n =? 0); [right; eexists; reflexivity|].
+  destruct (MAX_LONG_NAME_LEN <? utf8_len n); [right; eexists; reflexivity|].
+  destruct (validate_chars_cases n) as [H|H]; rewrite H; [left; reflexivity|right; eexists; reflexivity].
+Qed.
+
+(* (e) the part that holds without exception: a rejected name changes nothing *)
+Theorem failed_write_unchanged_partial k free ss n e x :
+  validate_long_name n = Err x -> write_entry k free ss n e = (Err x, ss).
+Proof. intros H. unfold write_entry, lift. rewrite H. reflexivity. Qed.
+
+(* (e) outside the known class every call either succeeds or is a rejected name that changed nothing
+   (in particular no Panic, no WriteZero, no NotEnoughSpace) *)
+Theorem failed_write_unchanged k free ss n e :
+  len_N ss < 134217728 -> ~ write_known_class k free ss n e ->
+  (exists range ss', write_entry k free ss n e = (Ok range, ss')) \/
+  (exists x, validate_long_name n = Err x /\ write_entry k free ss n e = (Err x, ss)).
+Proof.
+  intros Hb Hk. destruct (validate_ok_or_err n) as [V|[x V]].
+  - left. unfold write_entry, lift. rewrite V.
+    assert (1 <= len_N (entry_run n e)) as H1 by (unfold entry_run; rewrite len_N_app; cbn [len_N length N.of_nat]; lia).
+    destruct (find_free_entries_spec ss (len_N (entry_run n e)) H1 Hb) as [p [pre [mid [post [Ef S]]]]].
+    rewrite Ef. destruct S as [S1 S2 _ _ _].
+    assert (N.to_nat p = length pre) as Ep by (rewrite <- S2; unfold len_N; apply Nat2N.id).
+    destruct (can_hold_dec k free (length ss - N.to_nat p) (length (entry_run n e))) as [C|C].
+    + rewrite Ep in *. subst ss.
+      assert (can_hold k free (length (mid ++ post)) (length (entry_run n e))) as C'.
+      { replace (length (mid ++ post)) with (length (pre ++ mid ++ post) - length pre)%nat by (rewrite app_length; lia). exact C. }
+      destruct (write_run_total k _ free pre (mid ++ post) C') as [ss' W]. rewrite W. cbn [bind]. eauto.
+    + exfalso. apply Hk. exists p. split; assumption.
+  - right. exists x. split; [exact V|]. apply failed_write_unchanged_partial. exact V.
+Qed.
+
+Definition ex_sfn (name : list N) : sfn_entry :=
+  {| se_name := name; se_attrs := 32; se_reserved_0 := 0; se_create_time_0 := 0; se_create_time_1 := 0;
+     se_create_date := 33; se_access_date := 33; se_first_cluster_hi := 0; se_modify_time := 0; se_modify_date := 33;
+     se_first_cluster_lo := 0; se_size := 0 |}.
+Definition ex_alias : list N := [65; 65; 65; 65; 65; 65; 126; 49; 32; 32; 32].   (* "AAAAAA~1   " *)
+
+(* (e) the unrestricted statement
+     forall k free ss n e x ss', write_entry k free ss n e = (Err x, ss') -> ss' = ss
+   is FALSE for the code as it is (D5): a 14-character name needs 3 slots; an empty fixed root of 2 slots takes the two
+   long-name slots, then the short slot fails with WriteZero; the directory is left with an orphan run. *)
+Theorem failed_write_unchanged_refuted :
+  exists k free ss n e x ss',
+    write_entry k free ss n e = (Err x, ss') /\ ss' <> ss /\
+    len_N ss < 134217728 /\ sfn_live e /\ write_known_class k free ss n e /\
+    dir_scan ss 0 [] false = ([], [], []) /\ dir_scan ss' 0 [] false = ([], [], [DOrphanLfn 2]).
+Proof.
+  exists FixedRoot, 0%nat, [zero_slot; zero_slot], (repeat_N 97 14), (ex_sfn ex_alias), EWriteZero.
+  eexists. split; [vm_compute; reflexivity|]. split; [discriminate|]. split; [reflexivity|].
+  split; [|split; [|split; reflexivity]].
+  - constructor; [constructor; vm_compute; reflexivity| | |]; vm_compute; try reflexivity; discriminate.
+  - exists 0. split; [reflexivity|]. vm_compute. lia.
+Qed.
+
+(* ================================================================ 6. uniqueness of names in situ *)
+
+Lemma land_mod64_8 b : N.land (b mod 64) 8 = N.land b 8.
+Proof. change 64 with (2 ^ 6). rewrite <- N.land_ones, <- N.land_assoc. reflexivity. Qed.
+Lemma land15_8 x : N.land x 15 = 15 -> N.land x 8 = 8.
+Proof. intros H. change 8 with (N.land 15 8) at 1. rewrite N.land_assoc, H. reflexivity. Qed.
+
+(* The library's iterator (skipping volume labels) and the independent decoder list the same short slots: the raw
+   short names find_entry feeds to the alias generator are exactly the e_sfn of the decoded entries.  (They classify
+   slots with attribute low nibble 0xF and bit 4 or 5 set differently - long-name slot for the library, label for the
+   decoder - but neither lists such a slot.) *)
+Lemma scan_sfns_eq fat32 oem : forall ss before idx pend,
+  map Lfn.ev_raw_name (LfnSpec.spec_list oem true before ss) = map e_sfn (fst (fst (dir_scan ss idx pend fat32))).
+Proof.
+  induction ss as [|bs r IH]; intros before idx pend; [reflexivity|].
+  cbn [LfnSpec.spec_list dir_scan]. rewrite is_end_decode.
+  destruct (byte_at bs 0 =? 0); [reflexivity|].
+  destruct (slot_decode bs) as [e|e] eqn:ED.
+  - assert (slot_is_deleted (SFile e) = (byte_at bs 0 =? 229)) as Edel by (rewrite <- ED; apply is_deleted_decode).
+    unfold slot_decode in ED. destruct (N.land (attrs_truncate (byte_at bs 11)) ATTR_LFN =? ATTR_LFN) eqn:EL; [discriminate|].
+    injection ED as ED. unfold LfnSpec.is_entry. rewrite Edel.
+    destruct (byte_at bs 0 =? 229).
+    { cbn [negb andb]. rewrite (IH _ (idx + 1) []). destruct (dir_scan r (idx + 1) [] fat32) as [[a b] c]. reflexivity. }
+    assert (is_lfn_slot bs = false) as NL.
+    { unfold is_lfn_slot. apply N.eqb_neq. intros C. unfold attrs_truncate, ATTR_LFN in EL. rewrite C in EL. discriminate. }
+    rewrite NL.
+    assert (sfn_is_volume e = is_label_slot bs) as EV.
+    { unfold sfn_is_volume, is_label_slot, ATTR_VOLUME_ID. rewrite <- ED. cbn [se_attrs]. unfold attrs_truncate.
+      rewrite land_mod64_8. reflexivity. }
+    rewrite EV. destruct (is_label_slot bs).
+    { cbn [negb andb]. rewrite (IH _ (idx + 1) []). destruct (dir_scan r (idx + 1) [] fat32) as [[a b] c]. reflexivity. }
+    cbn [negb andb map]. rewrite (IH _ (idx + 1) []). destruct (dir_scan r (idx + 1) [] fat32) as [[a b] c].
+    cbn [fst map]. f_equal. unfold Lfn.mk_view, mk_entry. cbn [Lfn.ev_raw_name e_sfn]. rewrite <- ED. reflexivity.
+  - unfold slot_decode in ED. destruct (N.land (attrs_truncate (byte_at bs 11)) ATTR_LFN =? ATTR_LFN) eqn:EL; [|discriminate].
+    apply N.eqb_eq in EL. unfold attrs_truncate, ATTR_LFN in EL.
+    destruct (byte_at bs 0 =? 229).
+    { rewrite (IH _ (idx + 1) []). destruct (dir_scan r (idx + 1) [] fat32) as [[a b] c]. reflexivity. }
+    destruct (is_lfn_slot bs); [apply IH|].
+    assert (is_label_slot bs = true) as EV.
+    { unfold is_label_slot. apply land15_8 in EL. rewrite land_mod64_8 in EL. rewrite EL. reflexivity. }
+    rewrite EV. rewrite (IH _ (idx + 1) []). destruct (dir_scan r (idx + 1) [] fat32) as [[a b] c]. reflexivity.
+Qed.
+
+Lemma dir_entries_sfns fat32 oem ss l es ls iss :
+  dir_entries oem ss = Ok l -> dir_scan ss 0 [] fat32 = (es, ls, iss) -> map Lfn.ev_raw_name l = map e_sfn es.
+Proof.
+  intros H1 H2. unfold dir_entries in H1. rewrite LfnProofs.read_dir_sound in H1. injection H1 as <-.
+  unfold LfnSpec.spec_dir. rewrite (scan_sfns_eq fat32 oem ss [] 0 []). rewrite H2. reflexivity.
+Qed.
+
+Lemma list_eqb_eq a : forall b, list_eqb a b = true <-> a = b.
+Proof.
+  induction a as [|x a IH]; intros [|y b]; cbn [list_eqb]; split; intros H; try reflexivity; try discriminate.
+  - apply andb_true_iff in H. destruct H as [H1 H2]. apply N.eqb_eq in H1. apply IH in H2. congruence.
+  - injection H as -> ->. rewrite N.eqb_refl. apply IH. reflexivity.
+Qed.
+
+(* Wf's duplicate test (the WDupShort clause applies it to the e_sfn of a directory's entries) *)
+Lemma has_dup_NoDup l : Wf.has_dup list_eqb l = false <-> NoDup l.
+Proof.
+  induction l as [|x r IH]; cbn [Wf.has_dup]; split; intros H; try reflexivity; try constructor.
+  - apply orb_false_iff in H. destruct H as [H1 H2]. intros C.
+    assert (existsb (list_eqb x) r = true) as E by (apply existsb_exists; exists x; split; [exact C|apply list_eqb_eq; reflexivity]).
+    congruence.
+  - apply IH. apply orb_false_iff in H. apply H.
+  - inversion H as [|? ? N1 N2]; subst. apply orb_false_iff. split; [|apply IH; exact N2].
+    destruct (existsb (list_eqb x) r) eqn:E; [|reflexivity]. apply existsb_exists in E. destruct E as [y [Y1 Y2]].
+    apply list_eqb_eq in Y2. subst y. contradiction.
+Qed.
+
+Lemma sfn_byte_ok_live b : sfn_byte_ok b = true -> b <> 0 /\ b <> 229.
+Proof. intros H. split; intros C; subst b; vm_compute in H; discriminate. Qed.
+
+Lemma sfn_legal_first a : sfn_legal_b a = true -> length a = 11%nat /\ nth 0 a 0 <> 0 /\ nth 0 a 0 <> 229.
+Proof.
+  unfold sfn_legal_b. rewrite !andb_true_iff. intros [[[H1 H2] _] H4]. apply Nat.eqb_eq in H1. split; [exact H1|].
+  destruct a as [|b a']; [discriminate|]. cbn [firstn sfn_part_ok byte_nth nth] in *.
+  apply negb_true_iff in H4. rewrite H4 in H2. apply andb_true_iff in H2. apply sfn_byte_ok_live. apply H2.
+Qed.
+
+Lemma stamp_create_ranges now st : TimeProofs.datetime_valid now = true -> stamp_create now = Ok st ->
+  create_time_0 st < 256 /\ create_time_1 st < 65536 /\ create_date st < 65536 /\ access_date st < 65536 /\
+  modify_time st < 65536 /\ modify_date st < 65536.
+Proof.
+  intros Hv H. unfold TimeProofs.datetime_valid in Hv. apply andb_true_iff in Hv. destruct Hv as [Hd Ht].
+  unfold stamp_create, st_set_created, st_set_accessed, st_set_modified in H.
+  rewrite (TimeProofs.date_encode_arith _ Hd), (TimeProofs.time_encode_arith _ Ht) in H. cbn [bind] in H.
+  cbn [create_time_0 create_time_1 create_date access_date modify_time modify_date stamps_zero] in H.
+  injection H as <-. cbn [create_time_0 create_time_1 create_date access_date modify_time modify_date].
+  apply TimeProofs.date_valid_bounds in Hd. apply TimeProofs.time_valid_bounds in Ht.
+  repeat split; lia.
+Qed.
+
+Lemma create_sfn_entry_live fat32 a attrs cl st :
+  sfn_legal_b a = true -> attrs < 64 -> N.land attrs 8 = 0 ->
+  create_time_0 st < 256 /\ create_time_1 st < 65536 /\ create_date st < 65536 /\ access_date st < 65536 /\
+  modify_time st < 65536 /\ modify_date st < 65536 ->
+  sfn_live (create_sfn_entry fat32 a attrs cl st).
+Proof.
+  intros HL Ha Hv [T0 [T1 [T2 [T3 [T4 T5]]]]]. destruct (sfn_legal_first a HL) as [L1 [L2 L3]].
+  constructor; [constructor| | |]; unfold create_sfn_entry;
+    cbn [se_name se_attrs se_reserved_0 se_create_time_0 se_create_time_1 se_create_date se_access_date
+         se_first_cluster_hi se_modify_time se_modify_date se_first_cluster_lo se_size]; try assumption; try lia.
+  destruct fat32; lia.
+Qed.
+
+(* (f) create_file / create_dir at the slot layer: one new entry; its short name is new in the directory (so the
+   WDupShort clause cannot appear), and - relative to the library's own matching DirEntry::eq_name - no existing entry
+   matches the new name by long or by short name *)
+Theorem create_entry_refines upper oem fat32 k free ss n attrs cl now wd es ls range ss' :
+  dir_scan ss 0 [] fat32 = (es, ls, []) -> len_N ss < 134217728 ->
+  attrs < 64 -> N.land attrs 8 = 0 -> TimeProofs.datetime_valid now = true ->
+  create_entry upper oem fat32 k free ss n attrs cl now wd = (Ok (Some range), ss') ->
+  exists es1 es2 ne,
+    es = es1 ++ es2 /\ dir_scan ss' 0 [] fat32 = (es1 ++ ne :: es2, ls, []) /\
+    e_lfn ne = (if is_dot_name n then [] else utf16_encode n) /\ e_lfn_ok ne = true /\ e_attr ne = attrs /\ e_size ne = 0 /\
+    sfn_legal_b (e_sfn ne) = true /\
+    ~ In (e_sfn ne) (map e_sfn es) /\
+    (Wf.has_dup list_eqb (map e_sfn es) = false -> Wf.has_dup list_eqb (map e_sfn (es1 ++ ne :: es2)) = false) /\
+    (forall l, dir_entries oem ss = Ok l -> forall ev, In ev l -> matches upper oem n ev = false) /\
+    (forall i, (i < length ss)%nat -> (N.of_nat i < fst range \/ snd range <= N.of_nat i) -> nth_error ss' i = nth_error ss i).
+Proof.
+  intros H0 Hb Ha Hv Hnow H. unfold create_entry, lift in H.
+  destruct (check_for_existence upper oem ss n (Some wd)) as [[ev|a]| | |] eqn:C; try discriminate.
+  unfold check_for_existence in C.
+  destruct (validate_long_name n) as [[]| | |] eqn:V; try discriminate. cbn [bind] in C.
+  destruct (dir_entries oem ss) as [l| | |] eqn:DE; try discriminate. cbn [bind] in C.
+  destruct (find (matches upper oem n) l) as [ev|] eqn:F.
+  { destruct (kind_check ev (Some wd)); discriminate. }
+  destruct (alias_for n (map Lfn.ev_raw_name l) (S (length l / 9))) as [a'| | |] eqn:AF; try discriminate.
+  cbn [bind] in C. injection C as ->.
+  destruct (stamp_create now) as [st| | |] eqn:ST; try discriminate.
+  destruct (write_entry k free ss n (create_sfn_entry fat32 a attrs cl st)) as [w ss''] eqn:W.
+  destruct w as [rg| | |]; try discriminate. cbn [bind] in H. injection H as <- <-.
+  pose proof (sfn_legal _ _ _ _ AF) as HL. pose proof (sfn_unique _ _ _ _ AF) as HU.
+  pose proof (create_sfn_entry_live fat32 a attrs cl st HL Ha Hv (stamp_create_ranges now st Hnow ST)) as Hlive.
+  destruct rg as [p q].
+  destruct (write_entry_refines k free fat32 ss n _ es ls p q ss'' H0 Hb Hlive W)
+    as [es1 [es2 [ne [E1 [E2 [E3 [E4 [E5 [E6 [_ [_ [_ [_ [_ [_ [_ [_ [E15 [_ [_ [_ [Fr _]]]]]]]]]]]]]]]]]]]]]].
+  exists es1, es2, ne. cbn [create_sfn_entry se_name se_attrs se_size] in E5, E6, E15.
+  rewrite (dir_entries_sfns fat32 oem ss l es ls [] DE H0) in HU.
+  split; [exact E1|]. split; [exact E2|]. split; [exact E3|]. split; [exact E4|]. split; [exact E6|]. split; [exact E15|].
+  split; [rewrite E5; exact HL|]. split; [rewrite E5; exact HU|]. split; [|split].
+  - intros ND. apply has_dup_NoDup. apply has_dup_NoDup in ND. rewrite map_app. cbn [map].
+    rewrite E1, map_app in ND, HU.
+    apply (NoDup_Add (Add_app (e_sfn ne) (map e_sfn es1) (map e_sfn es2))). split; [exact ND|]. rewrite E5. exact HU.
+  - intros l' Hl' ev Hin. assert (l' = l) as -> by congruence.
+    destruct (matches upper oem n ev) eqn:M; [|reflexivity].
+    exfalso. pose proof (find_none _ _ F ev Hin). congruence.
+  - exact Fr.
 Qed.
